@@ -36,6 +36,9 @@ def _literalish(v, depth=0) -> bool:
         return all(_literalish(e, depth + 1) for e in v.elts)
     if isinstance(v, ast.BinOp) and isinstance(v.op, ast.Add):
         return _literalish(v.left, depth + 1) and _literalish(v.right, depth + 1)
+    if isinstance(v, ast.Call) and isinstance(v.func, ast.Name) and v.func.id in ('frozenset', 'set', 'tuple', 'list', 'sorted') \
+            and len(v.args) == 1 and not v.keywords:
+        return _literalish(v.args[0], depth + 1)        # NAME_SET = frozenset(NAMES)
     return False
 
 
@@ -370,6 +373,11 @@ def atom_fact(atom: ast.AST, pol: bool, S: ast.AST) -> Optional[str]:
     elif isinstance(atom, ast.Call) and isinstance(atom.func, ast.Attribute) and atom.func.attr in ('isdigit', 'isnumeric', 'isdecimal') \
             and is_s(atom.func.value):
         fact = 'digits'
+    elif isinstance(atom, ast.Compare) and len(atom.ops) == 1 and isinstance(atom.ops[0], (ast.In, ast.NotIn)) and is_s(atom.left) \
+            and const_seq(atom.comparators[0]) is not None and '' in const_seq(atom.comparators[0]) \
+            and all(v is None or isinstance(v, str) for v in const_seq(atom.comparators[0])):
+        # S in ('', 'None', ..): the empty cell (plus literal spellings of "missing", judged by the caller via missing_literals)
+        fact = 'empty' if isinstance(atom.ops[0], ast.In) else 'nonempty'
     elif isinstance(atom, ast.Compare) and len(atom.ops) == 1:
         l, op, r = atom.left, atom.ops[0], atom.comparators[0]
         if is_s(r) or (isinstance(r, ast.Call) and isinstance(r.func, ast.Name) and r.func.id == 'len' and r.args and is_s(r.args[0])):
@@ -407,6 +415,25 @@ def atom_fact(atom: ast.AST, pol: bool, S: ast.AST) -> Optional[str]:
     if fact is None:
         return None
     return fact if pol else flip(fact)
+
+
+def overbroad_empty(conds, S: ast.AST) -> List[str]:
+    """why the conditions that say "cell S is empty" also hold for cells that are NOT empty:
+    literal spellings accepted as missing (`S in ('', 'None')`), emptiness tested after strip() (whitespace-only text)"""
+    out = []
+    for t, pol in conds:
+        f = atom_fact(t, pol, S)
+        if f not in ('empty', 'falsy'):
+            continue
+        for n in ast.walk(t):
+            if isinstance(n, ast.Compare) and len(n.ops) == 1 and isinstance(n.ops[0], (ast.In, ast.NotIn)) and const_seq(n.comparators[0]):
+                lits = [v for v in const_seq(n.comparators[0]) if isinstance(v, str) and v != '']
+                if lits:
+                    out.append(f"the text {', '.join(repr(v) for v in lits)} is taken for a missing value")
+            if isinstance(n, ast.Call) and isinstance(n.func, ast.Attribute) and n.func.attr in ('strip', 'lstrip', 'rstrip') and not n.args \
+                    and same(_strip_noise(n), S):
+                out.append("emptiness is tested after .strip(): a text that consists of blanks only is taken for a missing value")
+    return list(dict.fromkeys(out))
 
 
 def sym_facts(conds, S: ast.AST) -> Tuple[Set[str], List[Tuple[ast.AST, bool]]]:
